@@ -83,3 +83,72 @@ func init() {
 		Nontrivial: func(r *world.Result) bool { return r.Msgs > 3 },
 	})
 }
+
+// genScriptLab: the script laboratory of C02 (world/comp_scriptlab.go). Every
+// secret is in the simulator's hands; witnesses are the three specified shapes
+// with zero or more mutated, inserted, removed or swapped items, or random
+// stacks of up to five items.
+func genScriptLab(t *rapid.T) *world.Plan {
+	p := &world.Plan{Seed: rapid.Uint64Range(1, 1<<40).Draw(t, "seed"), Scn: world.DefaultScenario()}
+	p.Scn.Component = "scriptlab"
+	p.Scn.Kind = [2]string{"real", "adv"}
+	p.Scn.DurationSec = 5
+	p.Scn.BlockEverySec = 0
+	lab := &world.LabCfg{
+		PreLen:  pick(t, "prelen", []int{32, 32, 32, 0, 1, 20, 31, 33, 64, 65, 520}),
+		CSV:     pick(t, "csv", []uint32{1008, 1008, 10080, 60}),
+		SameKey: rapid.IntRange(0, 9).Draw(t, "samekey") == 0,
+		Amount:  pick(t, "amount", []uint64{100_000, 2_000, 20_000_000}),
+	}
+	labels := []string{"sigT", "sigM", "sigO", "sigT-none", "sigM-single-acp", "sigT-badmsg", "sigM-badmsg", "pre", "pre-flip", "junk32", "pre-trunc", "pre-plus", "hash", "empty", "one", "zero", "script"}
+	csv := int64(lab.CSV)
+	n := rapid.IntRange(4, 24).Draw(t, "nattempts")
+	for i := 0; i < n; i++ {
+		var items []string
+		switch rapid.IntRange(0, 4).Draw(t, "shape") {
+		case 0:
+			items = []string{"sigT", "pre", "empty", "empty"}
+		case 1:
+			items = []string{"sigT", "sigM", "empty"}
+		case 2:
+			items = []string{"sigM"}
+		case 3:
+			items = []string{pick(t, "tsig", []string{"sigT", "sigT-none"}), pick(t, "mid", []string{"pre", "sigM", "sigM-single-acp"}), "empty", "empty"}
+			if items[1] != "pre" {
+				items = items[:3]
+			}
+		default:
+			for j, k := 0, rapid.IntRange(0, 5).Draw(t, "nitems"); j < k; j++ {
+				items = append(items, pick(t, "item", labels))
+			}
+		}
+		for j, k := 0, pick(t, "nmut", []int{0, 0, 1, 1, 2}); j < k && len(items) > 0; j++ {
+			switch rapid.IntRange(0, 3).Draw(t, "mut") {
+			case 0: // replace
+				items[rapid.IntRange(0, len(items)-1).Draw(t, "mpos")] = pick(t, "mitem", labels)
+			case 1: // insert
+				pos := rapid.IntRange(0, len(items)).Draw(t, "ipos")
+				items = append(items[:pos], append([]string{pick(t, "iitem", labels)}, items[pos:]...)...)
+			case 2: // remove
+				pos := rapid.IntRange(0, len(items)-1).Draw(t, "rpos")
+				items = append(items[:pos], items[pos+1:]...)
+			case 3: // swap neighbours
+				if len(items) > 1 {
+					pos := rapid.IntRange(0, len(items)-2).Draw(t, "spos")
+					items[pos], items[pos+1] = items[pos+1], items[pos]
+				}
+			}
+		}
+		if len(items) > 6 {
+			items = items[:6]
+		}
+		seq := pick(t, "seq", []int64{0, 1, csv - 1, csv, csv, csv + 1, 0xffffffff, 0xfffffffd, 1<<22 | csv, 1<<31 | csv, 65535, 1<<16 | csv, 1<<16 | (csv - 1), 0xffff0000 | csv})
+		depth := pick(t, "depth", []int64{0, 1, csv - 1, csv, csv + 1, 70000, seq & 0xffff, (seq & 0xffff) - 1})
+		if depth < 0 {
+			depth = 0
+		}
+		lab.Attempts = append(lab.Attempts, world.LabAttempt{Items: items, Seq: seq, Version: pick(t, "ver", []int32{2, 2, 2, 1, 3}), Depth: uint32(depth)})
+	}
+	p.Lab = lab
+	return p
+}
